@@ -289,7 +289,11 @@ impl OpSource for GenOps {
                     let mut g = Gen::new(self.rng.fork(), self.gen_p.cfg.clone());
                     g.sym = self.gen_p.sym.clone();
                     g.modules = self.gen_p.modules.clone();
-                    g.set_id_offset(5000);
+                    // the clone's generator continues with the same name counter, so parent
+                    // and clone will define the SAME names differently; only synthetic module
+                    // names are kept apart (both sessions share one importer)
+                    g.set_id_offset(self.gen_p.next_id_value());
+                    g.module_tag = "c".into();
                     self.gen_c = Some(g);
                     return Some(Op::Fork);
                 }
